@@ -25,7 +25,8 @@ def skeleton():
     return _SKEL
 
 
-def make_instance(animal, frame, drift=False, score=0.9):
+def make_instance(animal, frame, drift=False, score=0.9, nan=None):
+    """nan: None | 'p' (node 1 missing) | 'n' (every node missing)."""
     import sleap_io as sio
 
     bx, by = BASE[animal]
@@ -33,6 +34,10 @@ def make_instance(animal, frame, drift=False, score=0.9):
         dx, dy = DRIFT[animal]
         bx, by = bx + dx * frame, by + dy * frame
     pts = TEMPLATE + np.array([bx, by])
+    if nan == "p":
+        pts[1] = np.nan
+    elif nan == "n":
+        pts[:] = np.nan
     return sio.PredictedInstance.from_numpy(
         points_data=pts, skeleton=skeleton(), point_scores=np.full(3, 0.9), score=score
     )
@@ -45,6 +50,8 @@ def which_animal(feat):
     """Identify the animal from a feature / keypoint array: its first element is an x coordinate within
     ~20 px of the animal's base x (bases are >= 90 px apart in x, drift <= 2 px/frame)."""
     x = float(np.asarray(feat).flat[0])
+    if x != x:
+        return "?"  # an all-NaN detection: every such detection has the same (all-NaN) feature
     return min(_XS, key=lambda t: abs(t[0] - x))[1]
 
 
@@ -82,8 +89,10 @@ def new_tracker(cfg):
     return t
 
 
-def frame_events(k, low_score=False):
-    """Every ordered list of distinct animals from the first k animals (incl. the empty frame)."""
+def frame_events(k, low_score=False, nan_marks=False):
+    """Every ordered list of distinct animals from the first k animals (incl. the empty frame).
+    low_score: additionally every list with one detection marked low-score (0.1).
+    nan_marks: additionally every list with one detection marked 'p' (one node missing) or 'n' (all nodes missing)."""
     ev = []
     for r in range(0, k + 1):
         for perm in itertools.permutations(ANIMALS[:k], r):
@@ -96,10 +105,25 @@ def frame_events(k, low_score=False):
                 e2[i] = (e2[i][0], 0.1)
                 extra.append(e2)
         ev += extra
+    if nan_marks:
+        extra = []
+        for e in [x for x in ev if all(len(t) == 2 and t[1] == 0.9 for t in x)]:
+            for i in range(len(e)):
+                for m in ("p", "n"):
+                    e2 = list(e)
+                    e2[i] = (e2[i][0], 0.9, m)
+                    extra.append(e2)
+        ev += extra
     return ev
 
 
-def canon(tracker, with_frames=False):
+def _mode(inst):
+    a = inst.numpy()
+    n = int(np.isnan(a).any(axis=1).sum())
+    return "" if n == 0 else ("n" if n == len(a) else "p")
+
+
+def canon(tracker, with_frames=False, with_nan=False):
     """Canonical tracker state: (current_tracks, queue content as (track_id, animal) tuples).
     with_frames=True adds each entry's frame index (needed when positions drift with the frame, C10).
     Within one fixed-window entry the (track, animal) pairs are sorted: the tracker looks entries up by track id
@@ -108,7 +132,7 @@ def canon(tracker, with_frames=False):
     cur = tuple(int(t) for t in cand.current_tracks)
     if tracker.is_local_queue:
         q = tuple(
-            (int(tid), tuple((which_animal(t.feature), t.frame_idx if with_frames else 0) for t in dq))
+            (int(tid), tuple((which_animal(t.feature) + (_mode(t.src_instance) if with_nan else ""), t.frame_idx if with_frames else 0) for t in dq))
             for tid, dq in sorted(cand.tracker_queue.items())
         )
     else:
@@ -116,8 +140,8 @@ def canon(tracker, with_frames=False):
             (e.frame_idx if with_frames else 0,)
             + tuple(
                 sorted(
-                    ((-1 if tid is None else int(tid)), which_animal(f))
-                    for tid, f in zip(e.track_ids, e.features)
+                    ((-1 if tid is None else int(tid)), which_animal(f) + (_mode(inst) if with_nan else ""))
+                    for tid, f, inst in zip(e.track_ids, e.features, e.src_instances)
                 )
             )
             for e in cand.tracker_queue
@@ -143,7 +167,7 @@ def queue_track_ids(tracker):
 def step(tracker, event, frame_idx, drift=False):
     """Feed one frame. Returns (inputs, outputs, error-string-or-None) after checking the C09 invariants."""
     thr = tracker.candidate.instance_score_threshold
-    inputs = [make_instance(a, frame_idx, drift, s) for a, s in event]
+    inputs = [make_instance(t[0], frame_idx, drift, t[1], t[2] if len(t) > 2 else None) for t in event]
     try:
         out = tracker.track(list(inputs), frame_idx=frame_idx, image=None)
     except Exception as e:
@@ -155,7 +179,8 @@ def step(tracker, event, frame_idx, drift=False):
             return inputs, out, "returned an instance that was not among the frame's detections"
     if len(set(ids_out)) != len(ids_out):
         return inputs, out, "returned the same detection twice"
-    for i, (a, s) in zip(inputs, event):
+    for i, t in zip(inputs, event):
+        a, s = t[0], t[1]
         if s > thr:
             n = ids_out.count(id(i))
             if n != 1:
